@@ -8,6 +8,15 @@ ALL = ['C%02d' % i for i in range(1, 21)]
 
 # id -> (technique, level text, level note, design ref)
 CHECKS = {
+    'C06': (
+        'differential testing lazy vs fully loaded over Hypothesis-generated and templated documents',
+        'docgen documents (valid, or damaged by typed faults incl. duplicate key/ID and dangling keyref/IDREF in later chunks) and a '
+        'sections/items template whose identity constraints span chunks are processed with XMLResource(lazy=1, thin_lazy on/off) and '
+        'fully loaded: is_valid, the ordered (class, reason) error list of iter_errors, to_json data (default converter where children are '
+        'contiguous, JsonML always) and the multiset of iterated elements with in-scope namespaces must agree; lazy=2,3 are explored and '
+        'reported. Six divergences of the lazy *decoding* route are listed known findings.',
+        'trusted: the fully loaded run as reference leg; error paths are not compared (C19)',
+        'DESIGN.md section 3 C06'),
     'C05': (
         'round-trip and metamorphic testing over Hypothesis-generated schemas, documents and data mutations',
         'For docgen schemas and valid-by-construction documents: decode -> encode with JsonML and DataElement (always) and '
